@@ -22,7 +22,7 @@ def check(tier):
             'defines), O_fault (an execution error is raised exactly for / and % by zero and INT_MIN/-1, CBMC division-by-zero check '
             'inside the arm), O_arity (the arm never takes an operand the parser did not supply), O_present (every operator token of '
             'the property has an arm). Loop-free + full domain = complete proof per arm. * / %% arms are discharged by z3 (congruence), '
-            'the rest by MiniSat. Also under contract: the array declaration branch of evaluateDecl (O_decl: exactly `size` elements, all 0, declared size recorded, for every int size, by a loop contract; value list abstracted to its length), the guard on the length of a whole array assigned to a declared array (setVariable/PML_NAME: an execution error exactly for len > size, all size_t; loop-free), the integer guards on an array index in getVariable/setVariable (O_index: an execution error '
+            'the rest by MiniSat. Also under contract: the slice of PromelaDataModel::init that decides whether a declared variable is assigned (O_default: a <data> without value keeps the 0 of its declaration, one with a value is assigned; loop-free, all inputs), the array declaration branch of evaluateDecl (O_decl: exactly `size` elements, all 0, declared size recorded, for every int size, by a loop contract; value list abstracted to its length), the guard on the length of a whole array assigned to a declared array (setVariable/PML_NAME: an execution error exactly for len > size, all size_t; loop-free), the integer guards on an array index in getVariable/setVariable (O_index: an execution error '
             'exactly for index < 0 or index >= size, for all ints) and Data::operator[](size_t) with the list abstracted to its length (O_elem: '
             'the dereferenced iterator is element number index, never end(), for every list length and index, by loop contracts). NOT covered: '
             'precedence/associativity (bison grammar), operand evaluation order, the rest of variable storage.')
